@@ -49,11 +49,11 @@ def canonical_string(raw):
     head, _, body = raw.partition("\r\n\r\n")
     lines = head.split("\r\n")
     method, target, _ = lines[0].split(" ", 2)
-    hdrs, auth = {}, None
+    hdrs, auth = {}, []
     for l in lines[1:]:
         k, _, v = l.partition(":")
         if k.lower() == AUTH:
-            auth = v.strip()
+            auth.append(v.strip())
         else:
             hdrs[k.lower()] = v.strip()
     path, _, query = target.partition("?")
@@ -67,25 +67,42 @@ def canonical_string(raw):
     return s.encode("utf-8"), auth
 
 
+def is_hex(v):
+    return len(v) % 2 == 0 and all(c in "0123456789abcdefABCDEF" for c in v)
+
+
+def observe_all(raw, keys):
+    """one entry per authorization header VALUE the host received, in wire order:
+    (announced guid, index of the registered key whose secret verifies the MAC or None,
+     index of the key registered under the announced guid or None)"""
+    canon, auths = canonical_string(raw)
+    out = []
+    for auth in auths:
+        parts = auth.split(" ")
+        if len(parts) != 3 or parts[0] != "Azure-HMAC-SHA256":
+            out.append(("malformed:" + auth, None, None))
+            continue
+        guid, sig = parts[1], parts[2]
+        mac_ix = None
+        for ix, (g, kv) in keys.items():
+            if is_hex(kv) and hmac.new(bytes.fromhex(kv), canon, hashlib.sha256).hexdigest() == sig:
+                mac_ix = ix
+        ann_ix = None
+        for ix, (g, kv) in keys.items():
+            if g == guid:
+                ann_ix = ix
+        out.append((guid, mac_ix, ann_ix))
+    return out
+
+
 def observe(raw, keys):
-    """-> None (no authorization header) | (announced guid, index of the registered key whose secret
-    verifies the MAC or None, index of the key registered under the announced guid or None)"""
-    canon, auth = canonical_string(raw)
-    if auth is None:
-        return None
-    parts = auth.split(" ")
-    if len(parts) != 3 or parts[0] != "Azure-HMAC-SHA256":
-        return ("malformed:" + auth, None, None)
-    guid, sig = parts[1], parts[2]
-    mac_ix = None
-    for ix, (g, kv) in keys.items():
-        if hmac.new(bytes.fromhex(kv), canon, hashlib.sha256).hexdigest() == sig:
-            mac_ix = ix
-    ann_ix = None
-    for ix, (g, kv) in keys.items():
-        if g == guid:
-            ann_ix = ix
-    return (guid, mac_ix, ann_ix)
+    """the first authorization header of the request, None when there is none"""
+    o = observe_all(raw, keys)
+    return o[0] if o else None
+
+
+BAD = 8     # index of the key whose secret is not hex (compute_signature rejects it)
+USABLE = "(fun v => match v with [x] => N.ltb x 108 | _ => false end)"
 
 
 def fresh_keys(rng, n):
@@ -94,6 +111,11 @@ def fresh_keys(rng, n):
         g = "%08x-%04x-%04x-%04x-%012x" % (rng.getrandbits(32), rng.getrandbits(16), rng.getrandbits(16), rng.getrandbits(16), rng.getrandbits(48))
         ks[i] = (g, "%064x" % rng.getrandbits(256))
     return ks
+
+
+def add_bad_key(rng, keys):
+    keys[BAD] = (fresh_keys(rng, 1)[1][0], "not-a-hex-secret-%08x" % rng.getrandbits(32))
+    return keys
 
 
 def op_json(op, keys):
@@ -150,25 +172,28 @@ def hand_scenario(routes, pre, schedule, keys, replies=None):
     }
 
 
-def model_expr(sc, reads_fn="route_reads"):
-    progs = "[" + "; ".join("%s %s" % (reads_fn, ROUTES[r]) for r in sc["routes"]) + "]"
+def model_expr(sc):
+    rs = "[" + "; ".join(ROUTES[r] for r in sc["routes"]) + "]"
     ops = [o for o in sc["pre"]] + [it[1] for it in sc["schedule"] if it[0] == "k"]
     sched = [0] * len(sc["pre"]) + [(it[1] + 1) if it[0] == "p" else 0 for it in sc["schedule"]]
-    return "sim None %s %s (%s%%nat)" % (
-        progs,
+    return "sim_routes %s None %s %s (%s%%nat)" % (
+        USABLE, rs,
         "[" + "; ".join(coq_key(o) for o in ops) + "]" if ops else "(@nil (option key))",
         "[" + "; ".join(str(x) for x in sched) + "]" if sched else "(@nil nat)")
 
 
 def model_result(m):
-    """parsed SignRace.obs -> (hdr as (guid index, secret index) | None, class flag)"""
+    """parsed (route_outcome, class, epochs) -> (what leaves the agent: (guid index, secret index) |
+    None (request without authorization header) | "notsent" (the call fails before sending), class flag)"""
     if m is None:
         return ("unfinished", None)
-    m = m[1]
-    hdr, flag, _ep = m
-    if hdr is None:
+    out, flag, _ep = m[1]
+    if out == "NotSent":
+        return ("notsent", flag)
+    h = out[1]
+    if h is None:
         return (None, flag)
-    g, v = hdr[1]
+    g, v = h[1]
     return ((g[0], v[0] - 100), flag)
 
 
@@ -403,10 +428,10 @@ def run(ctx):
     hand_routes = ["goalstate", "sharedconfig", "imds", "telemetry"]
     positions = range(0, 5)
     for route in hand_routes:
-        for pre in ([0, 1], [1], []):          # rotated before the operation / latched / never latched
-            keys = fresh_keys(rng, 4)
+        for pre in ([0, 1], [1], [], [BAD]):   # rotated before the operation / latched / never latched / unusable secret latched
+            keys = add_bad_key(rng, fresh_keys(rng, 4))
             keys[0] = fresh_keys(rng, 1)[1]
-            singles = [[2], [None], [None, 2], [2, 3]]
+            singles = [[2], [None], [None, 2], [2, 3], [BAD], [BAD, 2]]
             for ops in singles:
                 for i in positions:
                     sched = [("p", 0)] * i + [("k", o) for o in ops]
@@ -461,7 +486,7 @@ def run(ctx):
     model = coq_eval(ctx, [model_expr(s) for _, s in scs], shard=60, name="hand")
 
     reads_seen = {}
-    n_signings = n_headers = n_torn = n_rot_during = n_requests = 0
+    n_signings = n_headers = n_torn = n_rot_during = n_requests = n_notsent = 0
     samples = []
     for (kind, sc), r, m in zip(scs, impl, model):
         if not r.get("ok"):
@@ -477,23 +502,31 @@ def run(ctx):
             cflag = class_py(sc, ix, reads if reads is not None else 0)
             n_rot_during += 1 if len(window) > 1 else 0
             # the property, on EVERY request this call made the host receive
-            observed = [observe(rq, sc["keys"]) for rq in s["requests"]]
+            every = [observe_all(rq, sc["keys"]) for rq in s["requests"]]
+            observed = [(oa[0] if oa else None) for oa in every]
             n_requests += len(observed)
-            for q, oq in enumerate(observed):
-                f = judge(oq, sc, ix, reads, route, window, cflag if q == 0 else False, where, req_ix=q)
-                if f:
-                    failures.append(f)
-                    n_torn += 1 if f["kind"] == "torn" else 0
-            if not s["completed"] or len(s["requests"]) != model_requests[route] or reads is None:
-                disagreements.append({"case": {"route": route, "what": "requests per call (the host's answer is not an input of the signing code: no re-signed retry)", "driver_input": sc["json"]},
-                                      "model": {"requests": model_requests[route], "completes": True},
+            for q, oa in enumerate(every):
+                for oq in (oa or [None]):
+                    f = judge(oq, sc, ix, reads, route, window, cflag if q == 0 else False, where, req_ix=q)
+                    if f:
+                        failures.append(f)
+                        n_torn += 1 if f["kind"] == "torn" else 0
+                if len(oa) > 1:
+                    disagreements.append({"case": {"route": route, "what": "authorization header values in one request", "driver_input": sc["json"]}, "model": 1, "impl": len(oa)})
+            mh, mflag = model_result(m[ix])
+            exp_requests = 0 if mh == "notsent" else model_requests[route]
+            if not s["completed"] or len(s["requests"]) != exp_requests or (reads is None and exp_requests > 0):
+                disagreements.append({"case": {"route": route, "what": "requests per call (the host's answer is not an input of the signing code: no re-signed retry; an unusable secret: the call fails before sending)", "driver_input": sc["json"], "model_expr": model_expr(sc)},
+                                      "model": {"requests": exp_requests, "completes": True},
                                       "impl": {"completed": s["completed"], "requests": len(s["requests"]), "result": s.get("result")}})
+                continue
+            if exp_requests == 0:
+                n_notsent += 1
                 continue
             reads_seen.setdefault(route, set()).add(reads)
             o = observed[0]
             n_headers += 1 if o is not None else 0
             # correspondence with the model on this schedule
-            mh, mflag = model_result(m[ix])
             ih = None if o is None else (o[2], o[1])
             if reads != model_reads[route]:
                 disagreements.append({"case": {"route": route, "what": "actor round trips per signing", "driver_input": sc["json"]},
@@ -556,9 +589,10 @@ def run(ctx):
     # ---------------- the proxied route: keeper ops injected at every scheduler turn ----------------
     pkeys = fresh_keys(rng, 3)
     pkeys[0] = fresh_keys(rng, 1)[1]
-    scripts = [([0, 1], [2]), ([0, 1], [None]), ([0, 1], [None, 2]), ([], [2])]
+    add_bad_key(rng, pkeys)
+    scripts = [([0, 1], [2]), ([0, 1], [None]), ([0, 1], [None, 2]), ([], [2]), ([0, 1], [BAD]), ([BAD], [2])]
     if not ctx.quick:
-        scripts += [([1], [2, 3]), ([1], [2, None])]
+        scripts += [([1], [2, 3]), ([1], [2, None]), ([0, 1], [BAD, 2])]
     cal = run_driver(ctx, exe, [json.dumps({"kind": "proxy", "pre": [op_json(1, pkeys)], "ops": [], "steps": None})], env, "proxied calibration")[0]
     if not cal.get("ok"):
         raise RuntimeError("c10 driver: proxied calibration failed: %s" % cal.get("error"))
@@ -597,15 +631,19 @@ def run(ctx):
             continue
         n_signings += 1
         n_requests += 1
-        o = observe(r["requests"][0], pkeys)
+        oa = observe_all(r["requests"][0], pkeys)
+        o = oa[0] if oa else None
         n_headers += 1 if o is not None else 0
         window = set([pre[-1] if pre else None] + ops)
         ih = None if o is None else (o[2], o[1])
-        torn_shape = o is not None and o[1] != o[2]
-        f = judge(o, psc, 0, 2 if torn_shape else 1, "proxy", window, torn_shape, "proxied request, injector at scheduler turn %d" % st)
-        if f:
-            failures.append(f)
-            n_torn += 1 if f["kind"] == "torn" else 0
+        for oq in (oa or [None]):
+            torn_shape = oq is not None and oq[1] != oq[2]
+            f = judge(oq, psc, 0, 2 if torn_shape else 1, "proxy", window, torn_shape, "proxied request, injector at scheduler turn %d" % st)
+            if f:
+                failures.append(f)
+                n_torn += 1 if f["kind"] == "torn" else 0
+        if len(oa) > 1:
+            disagreements.append({"case": {"route": "proxy", "what": "authorization header values in one forwarded request", "driver_input": psc["json"]}, "model": 1, "impl": len(oa)})
         seen.setdefault(si, {}).setdefault(ih, st)
         ph = phases.setdefault(si, [])
         if not ph or ph[-1] != ih:
@@ -648,6 +686,33 @@ def run(ctx):
             disagreements.append({"case": {"route": "proxy", "what": "requests per proxied request under an upstream fault, and their (announced key, MAC key)", "driver_input": psc["json"]},
                                   "model": [(1, 1)] * model_requests["proxy"], "impl": {"requests": ih, "status": r.get("status"), "error": r.get("error")}})
 
+    # the client's own request already carries authorization header values (a replayed header under the
+    # latched id, one under an id that was never latched, garbage): the agent's header REPLACES them
+    # (forwarded_auth): the host must see exactly one value, the agent's
+    clines, cmeta = [], []
+    junk = "%064x" % rng.getrandbits(256)
+    for vals in (["Azure-HMAC-SHA256 %s %s" % (pkeys[1][0], junk)], ["Azure-HMAC-SHA256 %s %s" % (pkeys[3][0], junk)], ["Bearer c10"],
+                 ["Azure-HMAC-SHA256 %s %s" % (pkeys[1][0], junk), "Azure-HMAC-SHA256 %s %s" % (pkeys[2][0], junk)]):
+        for st, exp in ((0, (2, 2)), (turns + 2, (1, 1))):
+            clines.append(json.dumps({"kind": "proxy", "pre": [op_json(0, pkeys), op_json(1, pkeys)], "ops": [op_json(2, pkeys)], "steps": st, "client_auth": vals}))
+            cmeta.append(exp)
+    cout = run_driver(ctx, exe, clines, env, "proxied runs with a client-supplied authorization header")
+    for exp, line, r in zip(cmeta, clines, cout):
+        psc = {"keys": pkeys, "json": json.loads(line)}
+        n_signings += 1
+        got = []
+        for q, rq in enumerate(r.get("requests", [])):
+            n_requests += 1
+            for oq in observe_all(rq, pkeys):
+                got.append((oq[2], oq[1]))
+                f = judge(oq, psc, 0, 1, "proxy", {1, 2}, False, "proxied request whose client supplied authorization header values", req_ix=q)
+                if f:
+                    failures.append(f)
+                    n_torn += 1 if f["kind"] == "torn" else 0
+        if not r.get("ok") or got != [exp]:
+            disagreements.append({"case": {"route": "proxy", "what": "authorization header values the host receives when the client supplied some (forwarded_auth: the agent's replaces them)", "driver_input": psc["json"]},
+                                  "model": [exp], "impl": {"values": got, "status": r.get("status"), "error": r.get("error")}})
+
     # reads on the proxied route, inferred from the script "rotate k1 -> k2": phases new / (torn) / old
     ph0 = phases.get(0, [])
     proxy_reads = max(0, len(ph0) - 1)
@@ -658,7 +723,7 @@ def run(ctx):
         if rs != {model_reads[route]} and not any(d["case"].get("route") == route for d in disagreements):
             disagreements.append({"case": {"route": route, "what": "actor round trips per signing"}, "model": model_reads[route], "impl": sorted(rs)})
 
-    total = len(scs) + len(plines) + len(flines) + len(lscs)
+    total = len(scs) + len(plines) + len(flines) + len(lscs) + len(clines)
     ctx.coverage.update({
         "evaluations": total,
         "distinct_nontrivial": n_rot_during + sum(len(v) for v in seen.values()),
@@ -668,7 +733,7 @@ def run(ctx):
         "exhaustive": False,
         "samples": samples[:4],
         "input_distribution": {"hand_exhaustive": n_exh, "hand_random": len(scs) - n_exh - n_hand_faults, "host_fault_calls": n_fault_calls,
-                               "requests_judged": n_requests, "latch_scenarios": len(lscs), "latch_polls": n_latch_polls, "latch_scenarios_with_name_or_asked_guid_mismatch": n_latch_name_mismatch, "proxied_runs": len(plines) + len(flines), "proxied_turns_calibrated": turns,
+                               "requests_judged": n_requests, "latch_scenarios": len(lscs), "latch_polls": n_latch_polls, "latch_scenarios_with_name_or_asked_guid_mismatch": n_latch_name_mismatch, "not_sent_unusable_secret": n_notsent, "client_supplied_auth_runs": len(clines), "proxied_runs": len(plines) + len(flines) + len(clines), "proxied_turns_calibrated": turns,
                                "signing_operations": n_signings, "with_header": n_headers, "key_changed_during_operation": n_rot_during,
                                "torn_pairs_observed": n_torn, "actor_round_trips_per_signing": {r: sorted(v) for r, v in reads_seen.items()},
                                "model_round_trips": model_reads},
